@@ -647,6 +647,8 @@ impl Group {
         // This has to be checked every time. A cached result may have been
         // computed when the signature was still (or not yet) valid.
         let ts_now = Timestamp::now();
+        #[cfg(feature = "verif-hooks")]
+        let ts_now = super::verif_clock::shift_timestamp(ts_now);
         if ts_now.canonical_gt(&sig.data().expiration())
             || ts_now.canonical_lt(&sig.data().inception())
         {
